@@ -35,6 +35,7 @@ type atomTr struct {
 	unhooked  bool              // the function has no verifYield points at all (one atomic load, e.g. Count)
 	wheelRecv string            // name of the *Wheel receiver ("" if none)
 	cfg       []string          // immutable receiver fields the function reads (they become its leading parameters)
+	hoisted   map[ast.Expr]int  // access calls already bound to a temporary (`return f(<access>)` is `tmp := <access>; return f(tmp)`)
 	queueRecv string            // name of the *Queue receiver ("" if none)
 	predName  string            // name of the predicate parameter ("" if none)
 	helpers   map[string]string // "load"/"cas" -> name of the checked helper function
@@ -95,6 +96,9 @@ func kindOfType(ty types.Type) string {
 
 // expr: a local expression; returns the Lean term and its kind ("nil" for the untyped nil)
 func (t *atomTr) expr(e ast.Expr) (string, string) {
+	if i, ok := t.hoisted[e]; ok {
+		return fmt.Sprintf("(.var %d)", i), t.vars[i].kind
+	}
 	// a constant expression (literal, named constant, constant arithmetic): its value, typed by go/types
 	if tv, ok := t.info.Types[e]; ok && tv.Value != nil && tv.Value.Kind() == constant.Int && tv.Type != nil {
 		switch wordKind(tv.Type) {
@@ -140,6 +144,13 @@ func (t *atomTr) expr(e ast.Expr) (string, string) {
 			op = ".bandNot"
 		case token.ADD:
 			op = ".add"
+		case token.NEQ:
+			a, ka := t.expr(x.X)
+			b, kb := t.expr(x.Y)
+			if ka != kb || (ka != "i64" && ka != "i32" && ka != "int") {
+				t.fail("comparison %s as a value", exprString(e))
+			}
+			return "(.ne " + a + " " + b + ")", "bool"
 		case token.SUB:
 			op = ".isub"
 		case token.QUO:
@@ -566,6 +577,28 @@ func (t *atomTr) stmt(s ast.Stmt, ind string) string {
 				t.declare(fmt.Sprintf("return#%d", len(t.vars)), k)
 				return fmt.Sprintf(".decl (.acc %s),\n%s.ret (some (.var %d))", a, ind, len(t.vars)-1)
 			}
+			// `return f(<access>)` with exactly one access inside a local expression: `tmp := <access>; return f(tmp)`
+			var calls []*ast.CallExpr
+			ast.Inspect(x.Results[0], func(n ast.Node) bool {
+				if c, ok := n.(*ast.CallExpr); ok && strings.HasPrefix(exprString(c.Fun), "atomic.") {
+					calls = append(calls, c)
+				}
+				return true
+			})
+			if len(calls) == 1 {
+				if a, k, ok := t.access(calls[0]); ok {
+					t.declare(fmt.Sprintf("return#%d", len(t.vars)), k)
+					if t.hoisted == nil {
+						t.hoisted = map[ast.Expr]int{}
+					}
+					t.hoisted[calls[0]] = len(t.vars) - 1
+					e, ke := t.expr(x.Results[0])
+					if ke == "" {
+						t.fail("return value %s", exprString(x.Results[0]))
+					}
+					return fmt.Sprintf(".decl (.acc %s),\n%s.ret (some %s)", a, ind, e)
+				}
+			}
 			e, k := t.expr(x.Results[0])
 			if k == "" {
 				t.fail("return value %s", exprString(x.Results[0]))
@@ -928,7 +961,7 @@ func atomicPlugin(ctxs map[string]*PkgCtx, outLean string) {
 		[]byte(leanAtomicFile("AstLoomQueue", "loom.Queue.Push / Pop (loom/queue.go; queueLoad and queueCas inlined)", q)))
 	var a []string
 	for _, tg := range []atomTarget{{"", "AddIf64", "addIf64", false}, {"Flag", "AddFlag", "addFlag", false}, {"Flag", "RemoveFlag", "removeFlag", false},
-		{"Mutex", "TryLock", "tryLock", false}, {"Mutex", "Count", "count", true}} {
+		{"Mutex", "TryLock", "tryLock", false}, {"Mutex", "Count", "count", true}, {"Flag", "HasFlag", "hasFlag", true}} {
 		a = append(a, translateAtomic(ctx, tg, map[string]string{}, ""))
 	}
 	writeIfChanged(filepath.Join(outLean, "AstLoomAtomics.lean"),
